@@ -38,7 +38,7 @@ def newcmd(cfg, seed):
         return "new %s seed=%d ; hs ; new %s %s seed=%d" % (first, seed, first, second, seed + 1000)
     return "new %s seed=%d" % (cfg, seed)
 
-SNAP_RE = re.compile(r"v=(\d),sv=(\d),hs=(\d+),f=([ECRW]*),done=(\d),err=(\d+),ed=(\d+):(\d+):(\d+),lb=(\d),ig=(-?\d+),ce=(\d),se=(\d),ae=(\d),bs=(\d+),ms=(\d+)")
+SNAP_RE = re.compile(r"v=(\d),sv=(\d),hs=(\d+),f=([ECRW]*),done=(\d),err=(\d+),ed=(\d+):(\d+):(\d+),lb=(\d),ig=(-?\d+),ce=(\d),se=(\d),ae=(\d),bs=(\d+),ms=(\d+),cl=(\d),np=(\d)")
 
 def parse_snap(s):
     m = SNAP_RE.match(s)
@@ -47,11 +47,11 @@ def parse_snap(s):
     g = m.groups()
     return {"v": int(g[0]), "sv": int(g[1]), "hs": int(g[2]), "E": "E" in g[3], "C": "C" in g[3], "R": "R" in g[3], "W": "W" in g[3],
             "done": int(g[4]), "err": int(g[5]), "edskip": int(g[6]), "edseen": int(g[7]), "edmax": int(g[8]), "lb": int(g[9]),
-            "ig": int(g[10]), "ce": int(g[11]), "se": int(g[12]), "ae": int(g[13]), "bs": int(g[14]), "ms": int(g[15])}
+            "ig": int(g[10]), "ce": int(g[11]), "se": int(g[12]), "ae": int(g[13]), "bs": int(g[14]), "ms": int(g[15]), "cl": int(g[16]), "np": int(g[17])}
 
 def st_fields(p):
-    return "%d %d %d %d %d %d %d %d %d %d %d %d %d %d" % (p["v"], p["sv"], p["hs"], p["R"], p["W"], p["E"], p["C"], p["edskip"], p["edseen"],
-                                                          p["edmax"], p["lb"], p["ig"], p["ce"], p["se"])
+    return "%d %d %d %d %d %d %d %d %d %d %d %d %d %d %d %d" % (p["v"], p["sv"], p["hs"], p["R"], p["W"], p["E"], p["C"], p["edskip"], p["edseen"],
+                                                                p["edmax"], p["lb"], p["ig"], p["ce"], p["se"], p["cl"], p["np"])
 
 class Step:
     """one delivery of bytes to a side, as logged by h_sess"""
